@@ -446,23 +446,24 @@ example : C07Arms.exprArms.length = 20 := by decide
   `unify_equates`): the statement for every function item whose body lies in the
   fragment `TcInfer.coreB` —
       literals of all kinds (with and without suffix: integer- and
-      float-literal variables), variables, unary `-` (signed integers, floats,
-      literal variables that thereby become must-be-signed) and `!`, the binary
-      operators `+` (numbers, String + String, List + List) `-` `*` `%`
-      `== != < <= > >= && ||`, `if` with and without `else`, `while`, blocks,
-      `let` with and without annotation, expression statements, calls of
-      functions (argument count and types), `return` / `accept` / `reject` with
-      and without value —
+      float-literal variables), variables, constants, unary `-` (signed
+      integers, floats, literal variables that thereby become must-be-signed)
+      and `!`, the binary operators `+` (numbers, String + String, List + List)
+      `-` `*` `%` `== != < <= > >= && ||`, `if` with and without `else`, `while`,
+      `for`, blocks, `let` with and without annotation, expression statements,
+      calls of functions (argument count and types), `Option.Some(e)`,
+      `Option.None`, list literals (also `[]`), `?`, `return` / `accept` /
+      `reject` with and without value —
   under the hypothesis that the store the body check leaves behind HAS A
   SOLUTION in ground types (`∃ σ, GVal σ ∧ Sat σ st.store`; `TcInfer.satB`
   decides a proposed solution).
   MISSING, precisely:
-    (a) outside the fragment: constants, field access, `/` (its `IpAddr / u8`
-        case builds a `Prefix`, which the declarative rules do not have), `for`,
-        method calls, assignment and compound assignment, record literals, list
-        literals, enum / `Option` constructors, `?`, `match`, f-strings (and with
-        them `resolve_obligations`: the theorem speaks about the store BEFORE
-        the obligations are resolved);
+    (a) outside the fragment: field access, `/` (its `IpAddr / u8` case builds
+        a `Prefix`, which the declarative rules do not have), method calls,
+        assignment and compound assignment, record literals, constructors of
+        user enums, `match`, f-strings (and with them `resolve_obligations`:
+        the theorem speaks about the store BEFORE the obligations are
+        resolved);
     (b) that a solution of the final store always exists (it does whenever the
         store is acyclic, which the occurs check maintains — not proved here);
     (c) constant items and whole programs (`TcInfer.checkProgM`).
